@@ -74,6 +74,8 @@ class HampelFilter(_SeriesToSeriesTransformer):
         """
         self.check_is_fitted()
         Z = check_series(Z)
+        # outliers are overwritten in place below, work on a copy of the input
+        Z = Z.copy()
 
         # multivariate
         if isinstance(Z, pd.DataFrame):
